@@ -131,13 +131,114 @@ fn scenario(n: u16, rounds: u16, reads: u16) {
     let _ = &BLOCKED_READS;
 }
 
+// ---------------------------------------------------------------------------
+// C02 / C17: an RTU broadcast write reaches every configured handler exactly once
+// even when an application thread holds a handler's mutex at that instant.
+
+struct JournalHandler {
+    writes: Arc<std::sync::Mutex<Vec<(u16, u16)>>>,
+    regs: std::collections::BTreeMap<u16, u16>,
+}
+
+impl rodbus::server::RequestHandler for JournalHandler {
+    fn read_holding_register(&self, address: u16) -> Result<u16, rodbus::ExceptionCode> {
+        self.regs.get(&address).copied().ok_or(rodbus::ExceptionCode::IllegalDataAddress)
+    }
+    fn write_single_register(&mut self, value: rodbus::Indexed<u16>) -> Result<(), rodbus::ExceptionCode> {
+        self.writes.lock().unwrap().push((value.index, value.value));
+        self.regs.insert(value.index, value.value);
+        Ok(())
+    }
+}
+
+fn crc16(data: &[u8]) -> u16 {
+    let mut crc: u16 = 0xFFFF;
+    for b in data {
+        crc ^= *b as u16;
+        for _ in 0..8 {
+            crc = if crc & 1 != 0 { (crc >> 1) ^ 0xA001 } else { crc >> 1 };
+        }
+    }
+    crc
+}
+
+const BCAST_PATH: &str = "/dev/ttySHUTTLE";
+
+fn scenario_broadcast(nunits: u8, rounds: u16, broadcasts: u16) {
+    use rodbus::server::RequestHandler;
+    ITER.fetch_add(1, Ordering::Relaxed);
+    kernel::install(Tape::replay(Vec::new()), SimConfig::default());
+    simtokio::serial::add_line(BCAST_PATH, simtokio::serial::OpenOutcome::Ok, true);
+    let mut map = rodbus::server::ServerHandlerMap::new();
+    let mut journals = Vec::new();
+    let mut handlers = Vec::new();
+    for u in 1..=nunits {
+        let j = Arc::new(std::sync::Mutex::new(Vec::new()));
+        let h = JournalHandler { writes: j.clone(), regs: Default::default() }.wrap();
+        map.add(rodbus::UnitId::new(u), h.clone());
+        journals.push(j);
+        handlers.push(h);
+    }
+    let (handle, task) = rodbus::server::create_rtu_server_task(
+        BCAST_PATH,
+        rodbus::SerialSettings::default(),
+        rodbus::doubling_retry_strategy(std::time::Duration::from_secs(1), std::time::Duration::from_secs(1)),
+        map,
+        rodbus::DecodeLevel::nothing(),
+    );
+    let _task = simtokio::task::spawn_named("rtu-server", task.run());
+    kernel::settle();
+    // application thread: works on the last unit's handler under its mutex, as the
+    // documentation of ServerHandlerType tells applications to do
+    let app_handler = handlers[nunits as usize - 1].clone();
+    let app = shuttle::thread::spawn(move || {
+        for r in 0..rounds {
+            {
+                let mut g = app_handler.lock().unwrap();
+                g.regs.insert(1000 + r, r);
+                // pre-empted while holding the lock
+                shuttle::thread::yield_now();
+                g.regs.insert(2000 + r, r);
+            }
+            shuttle::thread::yield_now();
+        }
+    });
+    let mut want = Vec::new();
+    for k in 0..broadcasts {
+        let mut f = vec![0u8, 6, 0, k as u8, 0x10, k as u8 + 1];
+        let c = crc16(&f);
+        f.push(c as u8);
+        f.push((c >> 8) as u8);
+        simtokio::serial::line_write(BCAST_PATH, &f);
+        kernel::settle();
+        READS.fetch_add(1, Ordering::Relaxed);
+        want.push((k, 0x1000 + k + 1));
+        shuttle::thread::yield_now();
+    }
+    app.join().unwrap();
+    kernel::settle();
+    for (i, j) in journals.iter().enumerate() {
+        let got = j.lock().unwrap().clone();
+        if got != want {
+            TORN.fetch_add(1, Ordering::Relaxed);
+            panic!("broadcast lost: unit {} saw the broadcast writes {:?}, the line carried {:?}", i + 1, got, want);
+        }
+    }
+    if !simtokio::serial::line_take(BCAST_PATH).is_empty() {
+        panic!("broadcast lost: a broadcast was answered");
+    }
+    drop(handle);
+    kernel::settle();
+    let _ = kernel::uninstall();
+}
+
 fn verif_root() -> String {
     std::env::var("VERIF_ROOT").unwrap_or_else(|_| "/verif".to_string())
 }
 
 /// runs inside a child process: a failing schedule may leave shuttle objects behind whose
 /// destructors abort the process, which must not take the report with it
-fn child_batch(seed: u64, iters: usize, pct: bool, n: u16) {
+fn child_batch(seed: u64, iters: usize, pct: bool, n: u16, bcast: bool) {
     let dir = format!("{}/replays", verif_root());
     let _ = std::fs::create_dir_all(&dir);
     let mut cfg = shuttle::Config::new();
@@ -145,22 +246,22 @@ fn child_batch(seed: u64, iters: usize, pct: bool, n: u16) {
     cfg.max_steps = shuttle::MaxSteps::FailAfter(2_000_000);
     if pct {
         let runner = shuttle::Runner::new(PctScheduler::new_from_seed(seed, 3, iters), cfg);
-        runner.run(move || scenario(n, 3, 3));
+        runner.run(move || if bcast { scenario_broadcast(n as u8, 3, 3) } else { scenario(n, 3, 3) });
     } else {
         let runner = shuttle::Runner::new(RandomScheduler::new_from_seed(seed, iters), cfg);
-        runner.run(move || scenario(n, 3, 3));
+        runner.run(move || if bcast { scenario_broadcast(n as u8, 3, 3) } else { scenario(n, 3, 3) });
     }
     println!("BATCH-OK {} {}", ITER.load(Ordering::Relaxed), READS.load(Ordering::Relaxed));
 }
 
 /// Ok((schedules, reads)) or Err("<schedule file>\n<message>")
-fn run_batch(name: &str, seed: u64, iters: usize, pct: bool, n: u16) -> Result<(u64, u64), String> {
+fn run_batch(prop: &str, name: &str, seed: u64, iters: usize, pct: bool, n: u16) -> Result<(u64, u64), String> {
     let dir = format!("{}/replays", verif_root());
     let _ = std::fs::create_dir_all(&dir);
     let before: Vec<String> = list_schedules(&dir);
     let exe = std::env::current_exe().expect("current_exe");
     let out = std::process::Command::new(exe)
-        .args(["_batch", &seed.to_string(), &iters.to_string(), if pct { "pct" } else { "random" }, &n.to_string()])
+        .args(["_batch", &seed.to_string(), &iters.to_string(), if pct { "pct" } else { "random" }, &n.to_string(), if name.starts_with("bcast") { "bcast" } else { "tx" }])
         .output()
         .map_err(|e| format!("(none)\ncannot start child: {}", e))?;
     let stdout = String::from_utf8_lossy(&out.stdout).to_string();
@@ -176,7 +277,7 @@ fn run_batch(name: &str, seed: u64, iters: usize, pct: bool, n: u16) -> Result<(
     let msg = stderr.lines().find(|l| l.contains("PANIC:")).unwrap_or("child process failed").to_string();
     let after = list_schedules(&dir);
     let newf = after.into_iter().find(|f| !before.contains(f)).unwrap_or_else(|| format!("{}/(schedule not persisted)", dir));
-    let target = format!("{}/C19-shuttle-{}-s{}.schedule", dir, name, seed);
+    let target = format!("{}/{}-shuttle-{}-s{}.schedule", dir, prop, name, seed);
     let _ = std::fs::remove_file(&target);
     let path = if std::fs::rename(&newf, &target).is_ok() { target } else { newf };
     Err(format!("{}\n{}", path, msg))
@@ -204,12 +305,18 @@ fn main() {
             let iters: usize = args[3].parse().unwrap();
             let pct = args[4] == "pct";
             let n: u16 = args[5].parse().unwrap();
-            child_batch(seed, iters, pct, n);
+            let bcast = args.get(6).map(|s| s == "bcast").unwrap_or(false);
+            child_batch(seed, iters, pct, n, bcast);
         }
         Some("_replay") => {
             let path = args.get(2).cloned().unwrap_or_default();
-            let n: u16 = if path.contains("n125") { 125 } else if path.contains("n2-") { 2 } else { 8 };
-            shuttle::replay_from_file(move || scenario(n, 3, 3), &path);
+            if path.contains("-bcast") {
+                let n: u8 = if path.contains("bcast-n3") { 3 } else { 2 };
+                shuttle::replay_from_file(move || scenario_broadcast(n, 3, 3), &path);
+            } else {
+                let n: u16 = if path.contains("n125") { 125 } else if path.contains("n2-") { 2 } else { 8 };
+                shuttle::replay_from_file(move || scenario(n, 3, 3), &path);
+            }
             println!("REPLAY-CLEAN");
         }
         Some("replay") => {
@@ -217,19 +324,23 @@ fn main() {
             let exe = std::env::current_exe().expect("current_exe");
             let out = std::process::Command::new(exe).args(["_replay", &path]).output().expect("child");
             let stderr = String::from_utf8_lossy(&out.stderr).to_string();
-            match stderr.lines().find(|l| l.contains("PANIC:") && l.contains("torn read")) {
+            let file = std::path::Path::new(&path).file_name().map(|f| f.to_string_lossy().to_string()).unwrap_or_default();
+            let prop = if file.starts_with("C02") { "C02" } else if file.starts_with("C17") { "C17" } else { "C19" };
+            let (needle, rule) = if file.contains("-bcast") { ("broadcast lost", "broadcast_lost") } else { ("torn read", "torn_read") };
+            match stderr.lines().find(|l| l.contains("PANIC:") && l.contains(needle)) {
                 Some(l) => {
-                    println!("VIOLATION property=C19 replay={}", path);
-                    println!("  rule=torn_read {}", l.trim_start_matches("PANIC: "));
+                    println!("VIOLATION property={} replay={}", prop, path);
+                    println!("  rule={} {}", rule, l.trim_start_matches("PANIC: "));
                     std::process::exit(1);
                 }
                 None => {
-                    println!("NOT-REPRODUCED property=C19 rule=torn_read (schedule {})", path);
+                    println!("NOT-REPRODUCED property={} rule={} (schedule {})", prop, rule, path);
                     std::process::exit(2);
                 }
             }
         }
-        Some("C19") => {
+        Some(prop @ ("C19" | "C02" | "C17")) => {
+            let prop = prop.to_string();
             let mut tier = std::env::var("VERIF_TIER").unwrap_or_else(|_| "quick".into());
             if let Some(i) = args.iter().position(|a| a == "--tier") {
                 if let Some(t) = args.get(i + 1) {
@@ -238,18 +349,18 @@ fn main() {
             }
             let t0 = std::time::Instant::now();
             let (it_rand, it_pct) = if tier == "thorough" { (400_000, 100_000) } else { (6_000, 2_000) };
-            let plan: Vec<(&str, bool, u16, usize)> = vec![
-                ("random-n8", false, 8, it_rand),
-                ("random-n2-", false, 2, it_rand / 2),
-                ("random-n125", false, 125, it_rand / 10),
-                ("pct-n8", true, 8, it_pct),
-            ];
+            let plan: Vec<(&str, bool, u16, usize)> = if prop == "C19" {
+                vec![("random-n8", false, 8, it_rand), ("random-n2-", false, 2, it_rand / 2), ("random-n125", false, 125, it_rand / 10), ("pct-n8", true, 8, it_pct)]
+            } else {
+                vec![("bcast-n2-random", false, 2, it_rand / 2), ("bcast-n3-random", false, 3, it_rand / 2), ("bcast-n2-pct", true, 2, it_pct)]
+            };
+            let (rule, what) = if prop == "C19" { ("torn_read", "multi_point_reads_checked") } else { ("broadcast_lost", "broadcasts_checked") };
             let mut failure: Option<String> = None;
             let mut batches = Vec::new();
             for (name, pct, n, iters) in &plan {
                 let bt = std::time::Instant::now();
-                let r = run_batch(name, seed, *iters, *pct, *n);
-                batches.push(serde_json::json!({"name": name, "scheduler": if *pct {"PCT(depth 3)"} else {"random"}, "registers_per_read": n, "schedules": iters, "wall_s": bt.elapsed().as_secs_f64()}));
+                let r = run_batch(&prop, name, seed, *iters, *pct, *n);
+                batches.push(serde_json::json!({"name": name, "scheduler": if *pct {"PCT(depth 3)"} else {"random"}, "size": n, "schedules": iters, "wall_s": bt.elapsed().as_secs_f64()}));
                 match r {
                     Ok((a, b)) => {
                         ITER.fetch_add(a, Ordering::Relaxed);
@@ -262,20 +373,30 @@ fn main() {
                 }
             }
             // merge into the evidence file written by the simulation engine
-            let path = format!("{}/evidence/C19.json", verif_root());
+            let path = format!("{}/evidence/{}.json", verif_root(), prop);
             let mut ev: serde_json::Value = std::fs::read_to_string(&path).ok().and_then(|t| serde_json::from_str(&t).ok()).unwrap_or_else(|| {
-                serde_json::json!({"property_id": "C19", "tier": tier, "seed": seed, "level": "exploration", "wall_s": 0.0, "coverage": {"evaluations": 0, "distinct_nontrivial": 0, "rule": "", "samples": []}})
+                serde_json::json!({"property_id": prop, "tier": tier, "seed": seed, "level": "exploration", "wall_s": 0.0, "coverage": {"evaluations": 0, "distinct_nontrivial": 0, "rule": "", "samples": []}})
             });
             let total: u64 = ITER.load(Ordering::Relaxed);
-            ev["coverage"]["atomicity_shuttle"] = serde_json::json!({
+            let (real, stub): (Vec<&str>, Vec<&str>) = if prop == "C19" {
+                (
+                    vec!["rodbus-ffi rodbus_server_update_database / database functions", "rodbus TCP server + session task (handler mutex acquisition per request)", "generated Runtime wrapper on the simulated runtime"],
+                    vec!["handler mutex = shuttle::sync::Mutex via cfg(rodbus_verif_shuttle)", "network, clock, executor (simtokio)", "application transaction callback with yields between updates"],
+                )
+            } else {
+                (
+                    vec!["rodbus RTU server task + session task (create_rtu_server_task): RTU parser, broadcast dispatch over the handler map"],
+                    vec!["handler mutex = shuttle::sync::Mutex via cfg(rodbus_verif_shuttle)", "serial line, clock, executor (simtokio / simserial)", "application thread locking the last unit's handler with a yield while it holds the lock"],
+                )
+            };
+            ev["coverage"]["threads_shuttle"] = serde_json::json!({
                 "engine": "shuttle 0.9 (random and PCT schedulers, seeded from VERIF_SEED)",
                 "schedules_explored": total,
-                "multi_point_reads_checked": READS.load(Ordering::Relaxed),
-                "torn_reads": if failure.is_some() { 1 } else { 0 },
+                what: READS.load(Ordering::Relaxed),
+                "violations": if failure.is_some() { 1 } else { 0 },
                 "batches": batches,
                 "wall_s": t0.elapsed().as_secs_f64(),
-                "components": {"real": ["rodbus-ffi rodbus_server_update_database / database functions", "rodbus TCP server + session task (handler mutex acquisition per request)", "generated Runtime wrapper on the simulated runtime"],
-                                "stub": ["handler mutex = shuttle::sync::Mutex via cfg(rodbus_verif_shuttle)", "network, clock, executor (simtokio)", "application transaction callback with yields between updates"]},
+                "components": {"real": real, "stub": stub},
             });
             if let Some(x) = ev["coverage"]["evaluations"].as_u64() {
                 ev["coverage"]["evaluations"] = serde_json::json!(x + total);
@@ -290,17 +411,17 @@ fn main() {
             match failure {
                 Some(f) => {
                     let mut lines = f.lines();
-                    println!("VIOLATION property=C19 replay={}", lines.next().unwrap_or(""));
-                    println!("  rule=torn_read {}", lines.next().unwrap_or(""));
+                    println!("VIOLATION property={} replay={}", prop, lines.next().unwrap_or(""));
+                    println!("  rule={} {}", rule, lines.next().unwrap_or(""));
                     std::process::exit(1);
                 }
                 None => {
-                    println!("OK property=C19 (atomicity, shuttle) tier={} seed={} schedules={} reads={} wall={:.1}s", tier, seed, total, READS.load(Ordering::Relaxed), t0.elapsed().as_secs_f64());
+                    println!("OK property={} (threads, shuttle) tier={} seed={} schedules={} checked={} wall={:.1}s", prop, tier, seed, total, READS.load(Ordering::Relaxed), t0.elapsed().as_secs_f64());
                 }
             }
         }
         _ => {
-            println!("usage: shuttlecheck C19 [--tier quick|thorough] | replay <schedule-file>");
+            println!("usage: shuttlecheck C19|C02|C17 [--tier quick|thorough] | replay <schedule-file>");
             std::process::exit(2);
         }
     }
